@@ -466,6 +466,33 @@ Theorem C14_machine_stride : forall bits sg idx E St, 0 < bits -> c14_valid idx 
 Proof. exact c14_machine_stride. Qed.
 Print Assumptions C14_machine_stride.
 
+(* --- a second swap undoes the first; self-swap and self-assignment leave a view unchanged (one object in both roles) *)
+Theorem C14_swap_involutive : forall (x y : c14_view),
+  c14_view_swap (fst (c14_view_swap x y)) (snd (c14_view_swap x y)) = (x, y) /\
+  c14_view_swap x x = (x, x) /\ c14_view_assign x x = (x, x).
+Proof. exact c14_swap_involutive. Qed.
+Print Assumptions C14_swap_involutive.
+
+(* --- the same for owning arrays *)
+Theorem C14_array_swap_involutive : forall (T : Type) (x y : c14_array T),
+  c14_array_swap (fst (c14_array_swap x y)) (snd (c14_array_swap x y)) = (x, y) /\
+  c14_array_swap x x = (x, x) /\ c14_array_assign x x = (x, x).
+Proof. exact c14_array_swap_involutive. Qed.
+Print Assumptions C14_array_swap_involutive.
+
+(* --- index tuples given in another integral type and converted by index_type(...) designate the same element whenever the extents are representable *)
+Theorem C14_index_conversion : forall bits sg m idx, 0 < bits -> c14_valid idx (c14_ext m) ->
+  Forall (fun e => c14_fits bits sg e = true) (c14_ext m) ->
+  c14_map m (map (c14_wrap bits sg) idx) = c14_map m idx.
+Proof. exact c14_index_conversion. Qed.
+Print Assumptions C14_index_conversion.
+
+(* --- layout_stride::mapping(extents, strides of another integral type): the same mapping whenever the strides are representable *)
+Theorem C14_stride_conversion : forall bits sg E St, 0 < bits -> Forall (fun s => c14_fits bits sg s = true) St ->
+  C14_Mapping C14_Stride E (map (c14_wrap bits sg) St) = C14_Mapping C14_Stride E St.
+Proof. exact c14_stride_conversion. Qed.
+Print Assumptions C14_stride_conversion.
+
 (* --- non-vacuity *)
 Example C14_ex_valid : c14_valid [1; 2; 3] [2; 3; 4] /\ c14_map_right [2; 3; 4] [1; 2; 3] = 23 /\ c14_map_left [2; 3; 4] [1; 2; 3] = 23.
 Proof. exact c14_ex_valid. Qed.
@@ -502,3 +529,6 @@ Proof. exact c14_ex_deep. Qed.
 Example C14_ex_machine : c14_map_right_w 16 true [181; 181] [180; 180] = 32760 /\ c14_fits 16 true (c14_product [181; 181]) = true /\
   c14_map_right_w 16 true [182; 182] [181; 181] <> c14_map_right [182; 182] [181; 181].   (* 33123 wraps: the guard is needed *)
 Proof. split; [vm_compute; reflexivity|split; [vm_compute; reflexivity|vm_compute; discriminate]]. Qed.
+Example C14_ex_index_conversion : c14_map (C14_Mapping C14_Right [2; 3] []) (map (c14_wrap 16 true) [1; 2]) = 5 /\
+  c14_wrap 8 false 300 = 44.   (* an index that does not fit wraps: the hypothesis is needed *)
+Proof. split; vm_compute; reflexivity. Qed.
